@@ -36,6 +36,7 @@ class Walk:
         self.problems = []         # (what, ln)
         self.counts = {"push": 0, "pop": 0, "scope_begin": 0, "scope_end": 0, "compile_begin": 0, "compile_end": 0}
         self.interp = cs.Interp(F, fn, None, None, None)
+        self.param_cls = {}        # parameter of an inlined helper -> class of the slice expression it was called with
 
     # ---- places -------------------------------------------------------------------------------
     def place(self, e):
@@ -327,7 +328,7 @@ class Walk:
         if e["k"] == "mcall" and len(params) == len(args) + 1:
             params = params[1:]
         saved_env = dict(self.env)
-        binds = {}
+        binds, cls_binds = {}, {}
         for p_, a in zip(params, args):
             if p_.get("k") != "bind":
                 continue
@@ -337,8 +338,14 @@ class Walk:
                 continue
             pl = self.place(a)
             el = self.elem_of(a)
-            if pl is not None:
+            single, sp = self.single_card(a)
+            if single:
+                binds[p_["id"]] = ("#single", sp)
+            elif pl is not None:
                 binds[p_["id"]] = pl
+                c = self.arg_class(a)
+                if c is not None and c[0] in ("array", "vec"):
+                    cls_binds[p_["id"]] = c
             elif el is not None:
                 binds[p_["id"]] = ("#elem", el)
             else:
@@ -346,16 +353,20 @@ class Walk:
                 # parameter stands for that symbolic value; an unrecognised expression stays unbound (sym -> '?')
                 sv = self.sym(a)
                 binds[p_["id"]] = None if isinstance(sv, tuple) and sv[0] == "?" else ("#sym", sv)
+        saved_cls = dict(self.param_cls)
         for pid, v in binds.items():       # arguments are evaluated in the caller's environment, then bound
             self.env.pop(pid, None)
+            self.param_cls.pop(pid, None)
             if v is not None:
                 self.env[pid] = v
+        self.param_cls.update(cls_binds)
         self._inline_stack = getattr(self, "_inline_stack", []) + [g.short]
         try:
             self.walk(g.hir["body"])
         finally:
             self._inline_stack = self._inline_stack[:-1]
             self.env = saved_env
+            self.param_cls = saved_cls
 
     def call(self, e):
         names = hir_callee(e)
@@ -449,22 +460,51 @@ class Walk:
                 self.walk(c["body"])
                 self.require_same(snap, c.get("ln", ln), "closure")
 
+    def arg_class(self, a):
+        """class of a slice-of-cards expression: ('array', N) | ('vec',) | None. A parameter of an inlined helper keeps
+        the class of the expression it was called with (a `[Card; 2]` payload handed over as `&[Card]` is still 2 cards);
+        borrows / derefs / as_ref are looked through, an array type found on the way wins over the coerced slice type."""
+        a = hir_strip(a)
+        if a is None:
+            return None
+        lid = hir_local_id(a)
+        if lid is not None and lid in self.param_cls:
+            return self.param_cls[lid]
+        best = cs.classify(a.get("ty", "") or "") or cs.classify(a.get("ty_adj", "") or "")
+        inner = None
+        if a.get("k") == "mcall" and a["name"] in cs.TRANSPARENT:
+            inner = a["recv"]
+        elif a.get("k") == "addr_of" or (a.get("k") == "un" and a["op"] == "Deref"):
+            inner = a["e"]
+        if inner is not None:
+            c = self.arg_class(inner)
+            if c is not None and (c[0] == "array" or best is None or best[0] == "card"):
+                best = c
+        return best
+
+    def single_card(self, a):
+        """`slice::from_ref(&P)` (or a parameter of an inlined helper bound to one): (True, place | None), else (False, None)"""
+        a = hir_strip(a)
+        if a is not None and a.get("k") == "call" and any(n.endswith("slice::from_ref") for n in hir_callee(a)):
+            return True, self.place(a["args"][0])
+        lid = hir_local_id(a) if a is not None else None
+        v = self.env.get(lid) if lid is not None else None
+        if isinstance(v, tuple) and v and v[0] == "#single":
+            return True, v[1]
+        return False, None
+
     def subexpr(self, arg, ln):
         a = hir_strip(arg)
         # slice::from_ref(&P)
-        if a.get("k") == "call" and any(n.endswith("slice::from_ref") for n in hir_callee(a)):
-            p = self.place(a["args"][0])
-            if p is None:
+        single, sp = self.single_card(a)
+        if single:
+            if sp is None:
                 self.events.append(("synthetic", None, tuple(self.stack) + (0,), ln))
             else:
-                self.events.append(("child", cs.Accessors._place_outcome(p), tuple(self.stack) + (0,), ln))
+                self.events.append(("child", cs.Accessors._place_outcome(sp), tuple(self.stack) + (0,), ln))
             return
         p = self.place(a)
-        cls = cs.classify(a.get("ty", "")) or cs.classify(a.get("ty_adj", "") or "")
-        if a.get("k") == "mcall" and a["name"] in cs.TRANSPARENT:
-            cls = cs.classify(hir_strip(a["recv"]).get("ty", "")) or cls
-        if a.get("k") == "addr_of":
-            cls = cs.classify(hir_strip(a["e"]).get("ty", "")) or cls
+        cls = self.arg_class(a)
         if p is None or cls is None:
             self.events.append(("unknown_subexpr", None, tuple(self.stack), ln))
             return
